@@ -160,7 +160,7 @@ class World:
     def loaded(self):
         out = []
         for kls in (self.profiles.ProfileNode, self.profiles.EmptyRootNode):
-            for inst in list(kls.__instance_cache__.values()):
+            for inst in list((kls.__instance_cache__ or {}).values()):
                 p = getattr(inst, "path", "")
                 if not (p == self.base or p.startswith(self.base + os.sep)):
                     continue
@@ -426,12 +426,13 @@ def mc_runs(ck):
     q = ck.quick
     runs = [
         # (label, constants, invariants, properties)
-        ("shared masks", dict(), OBJ_INVS, OBJ_PROPS),
+        ("shared masks", dict(EditSet="EditsQ0" if q else "EditsQ1"), OBJ_INVS, OBJ_PROPS),
         ("env, non-pms instances", dict(Objs='{"o1"}' if q else '{"o1", "o2"}', GetAttrs='{"default_env", "use"}',
-                                        OpenLeaves='{"n4"}' if q else '{"n4", "n2"}', EditSet="EditsQ2",
+                                        OpenLeaves='{"n4"}' if q else '{"n4", "n2"}', EditSet="EditsQ2a" if q else "EditsQ2",
                                         StrictChoices="{FALSE}"), OBJ_INVS, OBJ_PROPS),
-        ("failures", dict(Objs='{"o1"}', GetAttrs='{"system", "provided", "profile_set"}', OpenLeaves='{"n4"}',
-                          EditSet="EditsQ3", PSetChoices="{TRUE, FALSE}"), OBJ_INVS, OBJ_PROPS),
+        ("failures", dict(Objs='{"o1"}', GetAttrs='{"system", "provided"}' if q else '{"system", "provided", "profile_set"}',
+                          OpenLeaves='{"n4"}', EditSet="EditsQ3", PSetChoices="{TRUE}" if q else "{TRUE, FALSE}"),
+         OBJ_INVS, OBJ_PROPS),
         ("laws: env", dict(WithObjects="FALSE", EditSet="EditsLawEnvQ" if q else "EditsLawEnv"), LAW_INVS, []),
         ("laws: masks", dict(WithObjects="FALSE", EditSet="EditsLawMaskQ" if q else "EditsLawMask"), LAW_INVS, []),
     ]
@@ -440,47 +441,41 @@ def mc_runs(ck):
             ("masks + parents", dict(GetAttrs='{"masks", "stack"}', EditSet="EditsMasks", OpenLeaves='{"n4", "n3"}'),
              OBJ_INVS, OBJ_PROPS),
             ("mixed", dict(Objs='{"o1"}', GetAttrs='{"masks", "system", "default_env"}', OpenLeaves='{"n4"}',
-                           EditSet="EditsMixed", StrictChoices="{TRUE, FALSE}"), OBJ_INVS, OBJ_PROPS),
+                           EditSet="EditsMixed", StrictChoices="{FALSE}"), OBJ_INVS, OBJ_PROPS),
         ]
     return runs
 
 
 GUARDS = [  # (constants of the broken design, what TLC must report)
-    (dict(NodeCache="FALSE", Objs='{"o1"}', OpenLeaves='{"n4"}'), OBJ_INVS, "InvCoherent"),
-    (dict(WeakCache="FALSE", Objs='{"o1"}', OpenLeaves='{"n4"}'), OBJ_INVS, "InvFresh"),
-    (dict(PerPath="FALSE", WithObjects="FALSE", EditSet="EditsLawEnvQ"), LAW_INVS, "LawEnv"),
+    (dict(NodeCache="FALSE", Objs='{"o1"}', OpenLeaves='{"n4"}', EditSet="EditsQ0"), ["InvCoherent"], "InvCoherent"),
+    (dict(WeakCache="FALSE", Objs='{"o1"}', OpenLeaves='{"n4"}', EditSet="EditsQ0"), ["InvFresh"], "InvFresh"),
+    (dict(PerPath="FALSE", WithObjects="FALSE", EditSet="EditsLawEnvQ"), ["LawEnv"], "LawEnv"),
 ]
 
 
-def run_tlc_jobs(jobs, workers):
-    """Independent TLC runs from threads (each JVM start is slow on a loaded box)."""
-    from concurrent.futures import ThreadPoolExecutor
-
-    def one(job):
-        label, cfg, kw = job
-        return label, tlc.run("ProfileStack_MC", cfg_text=cfg, **kw)
-
-    with ThreadPoolExecutor(workers) as ex:
-        return list(ex.map(one, jobs))
+TRACE_ENV = {"JAVA_TOOL_OPTIONS": "-Xss256m"}
 
 
-def judge(ck, events, hists, label):
-    if not events:
-        return
-    verdicts = ck.trace("ProfileStack_Trace", events, label=label, timeout=2400,
-                        env={"JAVA_TOOL_OPTIONS": "-Xss256m"})
+def report(ck, label, events, hists, verdicts, res):
+    """Turn the verdicts of one judged batch into violations (called in the main thread)."""
+    ck.add_mc(label, res)
+    ck.traces += len({e["tid"] for e in events})
     by = {(e["tid"], e["i"]): e for e in events}
     for v in verdicts:
         e = by[(v["tid"], v["i"])]
         tree, hist = hists[v["tid"]]
         if v["clause"] == "OutsideDomain":
             raise tlc.MachineryError(f"generator left the domain: {e}")
-        upto = hist[: v["i"]]
         detail = dict(call=e["ev"], attr=e.get("attr", "-"), exc=e.get("exc", {}).get("cls", "-"),
                       exc_file=e.get("exc", {}).get("file", "-"), strict=tree["strict"], pset=tree["pset"],
-                      tree=tree, history=upto,
+                      tree=tree, history=hist[: v["i"]],
                       observed={k: e[k] for k in ("raised", "exc", "val", "logs", "loaded") if k in e})
         ck.violation(v["clause"], detail)
+
+
+def judge(ck, events, hists, label):
+    verdicts, res = tlc.trace_check("ProfileStack_Trace", events, timeout=2400, env=TRACE_ENV)
+    report(ck, label, events, hists, verdicts, res)
 
 
 def run(ck):
@@ -520,57 +515,78 @@ def _run(ck, scratch, cap):
         ck.sample(d["history"])
         ck.nontriv("replay")
         return
-    # 1. the design: model checking + vacuity guards
-    jobs = [] if os.environ.get("G03_SKIP_MC") else [(f"MC:{label}", mc_cfg(c, invs, props), dict(workers=ck.pick(2, 4), timeout=ck.pick(600, 3000)))
-            for label, c, invs, props in mc_runs(ck)]
-    if jobs:
-        jobs += [(f"MC:guard {c}", mc_cfg(c, invs, []), dict(workers=1, timeout=600)) for c, invs, _want in GUARDS]
-    results = run_tlc_jobs(jobs, ck.pick(4, 4))
-    for (label, res), want in zip(results, [None] * len(mc_runs(ck)) + [g[2] for g in GUARDS]):
-        ck.add_mc(label, res)
-        if want is None and res.violated:
-            raise tlc.MachineryError(f"{label}: the model violates {res.violated}\n{res.out[-3000:]}")
-        if want is not None and res.violated != want:
-            raise tlc.MachineryError(f"vacuity guard {label}: TLC should refute {want}, got {res.violated}\n{res.out[-2000:]}")
-    ck.extra["vacuity_guards_refuted"] = [g[2] for g in GUARDS]
-    # 2. spec -> code
-    D = ck.pick(14, 22)
-    nsim = ck.pick(60, 700)
-    sim_consts = dict(Objs='{"o1", "o2"}', GetAttrs="AllAttrs", OpenLeaves='{"n4", "n3", "n2"}', EditSet="EditsQ1",
-                      StrictChoices="{TRUE, FALSE}", PSetChoices="{TRUE, FALSE}")
-    sim_cfg = mc_cfg(sim_consts, ["Emit"], [], spec="SimSpec", extra=f"CONSTANT D = {D}\n").replace(
-        "GetAttrs = AllAttrs", "GetAttrs <- AllAttrs")
-    sim = tlc.run("ProfileStack_Sim", cfg_text=sim_cfg, simulate=f"num={nsim}", depth=D + 2, seed=seed() + 3, workers=1,
-                  timeout=900)
-    ck.add_mc(f"Simulate:ProfileStack_Sim num={nsim} depth={D}", sim)
-    behs = [(p[1], p[2]) for p in sim.tagged("BEH")]
-    if len(behs) < nsim // 2:
-        raise tlc.MachineryError(f"simulation produced only {len(behs)} behaviours\n{sim.out[-2000:]}")
-    behs = directed(behs[0][0]) + behs
-    events, hists = [], {}
-    tid = 0
-    for tree, hist in behs:
-        run_history(tid, tree, hist, scratch, r_, cap, events)
-        hists[tid] = (tree, hist)
-        account(ck, "sim", tree, hist, events, tid)
-        tid += 1
-    ck.sample(dict(direction="spec->code", history=behs[len(behs) // 2][1]))
-    judge(ck, events, hists, "Trace:simulated+directed histories")
-    # 3. code -> spec
-    nrand = ck.pick(150, 2500)
-    batch = 500
-    for b0 in range(0, nrand, batch):
+    from concurrent.futures import ThreadPoolExecutor
+
+    # every TLC run is an independent process: they are started from a small pool of threads while the main
+    # thread executes histories on the real code (JVM starts are slow on a loaded box)
+    pool = ThreadPoolExecutor(ck.pick(4, 4))
+    try:
+        # 1. the design: model checking + vacuity guards (collected at the end)
+        mc = []
+        if not os.environ.get("G03_SKIP_MC"):
+            for label, c, invs, props in mc_runs(ck):
+                mc.append((f"MC:{label}", None, pool.submit(tlc.run, "ProfileStack_MC", cfg_text=mc_cfg(c, invs, props),
+                                                            workers=ck.pick(2, 4), timeout=ck.pick(900, 3000))))
+            for c, invs, want in GUARDS:
+                mc.append((f"MC:guard {c}", want, pool.submit(tlc.run, "ProfileStack_MC", cfg_text=mc_cfg(c, invs, []),
+                                                              workers=1, timeout=900)))
+        # 2. spec -> code: the simulation runs while the random histories are executed
+        D = ck.pick(12, 18)
+        nsim = ck.pick(40, 300)
+        sim_consts = dict(Objs='{"o1", "o2"}', GetAttrs="AllAttrs", OpenLeaves='{"n4", "n3", "n2"}', EditSet="EditsQ1",
+                          StrictChoices="{TRUE, FALSE}", PSetChoices="{TRUE, FALSE}")
+        sim_cfg = mc_cfg(sim_consts, ["Emit"], [], spec="SimSpec", extra=f"CONSTANT D = {D}\n").replace(
+            "GetAttrs = AllAttrs", "GetAttrs <- AllAttrs")
+        sim_f = pool.submit(tlc.run, "ProfileStack_Sim", cfg_text=sim_cfg, simulate=f"num={nsim}", depth=D + 2,
+                            seed=seed() + 3, workers=1, timeout=2400)
+        # 3. code -> spec
+        pending = []  # (label, events, hists, future)
         events, hists = [], {}
-        for k in range(b0, min(nrand, b0 + batch)):
-            tree, names = rnd_tree(r_)
-            hist = rnd_history(r_, tree, names, r_.randint(6, ck.pick(18, 26)))
+        tid = 0
+        nrand = ck.pick(110, 1600)
+        batch = 400
+        for b0 in range(0, nrand, batch):
+            for k in range(b0, min(nrand, b0 + batch)):
+                tree, names = rnd_tree(r_)
+                hist = rnd_history(r_, tree, names, r_.randint(6, ck.pick(16, 26)))
+                run_history(tid, tree, hist, scratch, r_, cap, events)
+                hists[tid] = (tree, hist)
+                account(ck, "rnd", tree, hist, events, tid)
+                tid += 1
+            if b0 == 0:
+                ck.sample(dict(direction="code->spec", tree=tree, history=hist))
+            if not ck.quick:
+                pending.append((f"Trace:random histories {b0}..", events, hists,
+                                pool.submit(tlc.trace_check, "ProfileStack_Trace", events, timeout=2400, env=TRACE_ENV)))
+                events, hists = [], {}
+        sim = sim_f.result()
+        ck.add_mc(f"Simulate:ProfileStack_Sim num={nsim} depth={D}", sim)
+        behs = [(p[1], p[2]) for p in sim.tagged("BEH")]
+        if len(behs) < nsim // 2:
+            raise tlc.MachineryError(f"simulation produced only {len(behs)} behaviours\n{sim.out[-2000:]}")
+        behs = directed(behs[0][0]) + behs
+        for tree, hist in behs:
             run_history(tid, tree, hist, scratch, r_, cap, events)
             hists[tid] = (tree, hist)
-            account(ck, "rnd", tree, hist, events, tid)
+            account(ck, "sim", tree, hist, events, tid)
             tid += 1
-        if b0 == 0:
-            ck.sample(dict(direction="code->spec", tree=tree, history=hist))
-        judge(ck, events, hists, f"Trace:random histories {b0}..")
+        ck.sample(dict(direction="spec->code", history=behs[len(behs) // 2][1]))
+        # (the quick tier judges everything in one TLC run)
+        judge(ck, events, hists, "Trace:simulated+directed" + ("+random histories" if ck.quick else " histories"))
+        for label, evs, hs, fut in pending:
+            verdicts, res = fut.result()
+            report(ck, label, evs, hs, verdicts, res)
+        for label, want, fut in mc:
+            res = fut.result()
+            ck.add_mc(label, res)
+            if want is None and res.violated:
+                raise tlc.MachineryError(f"{label}: the model violates {res.violated}\n{res.out[-3000:]}")
+            if want is not None and res.violated != want:
+                raise tlc.MachineryError(f"vacuity guard {label}: TLC should refute {want}, got {res.violated}\n{res.out[-2000:]}")
+        if mc:
+            ck.extra["vacuity_guards_refuted"] = [g[2] for g in GUARDS]
+    finally:
+        pool.shutdown(wait=True, cancel_futures=True)
 
 
 def account(ck, kind, tree, hist, events, tid):
